@@ -242,6 +242,19 @@ def evaluate_image_first(case):
                     want[prefix] = n
                 continue
             want[(prefix + b"/" + p) if prefix not in (b"", b".") else p] = n
+        sel = [os.fsencode(opts[i + 1]) for i in range(len(opts) - 1) if opts[i] == "-d"]
+        if sel:
+            # --subdir: only the selected directories; with --keep-as-dir (implied by more than one --subdir) under their full path together with
+            # their parent directories, otherwise the single selected directory becomes the archive root
+            keep = "-k" in opts or len(sel) > 1
+            w2 = {}
+            for p, n in want.items():
+                for d_ in sel:
+                    if keep and (p == d_ or p.startswith(d_ + b"/") or d_.startswith(p + b"/")):
+                        w2[p] = n
+                    elif not keep and p.startswith(d_ + b"/"):
+                        w2[p[len(d_) + 1:]] = n
+            want = w2
         if nsock and b"sock" not in rt.err.lower() and b"skip" not in rt.err.lower():
             return viol("C04|socket-skipped-silently", "image has %d socket inode(s), sqfs2tar printed no warning" % nsock)
         try:
@@ -332,6 +345,15 @@ def main():
                 if len(names) == 2 and opts and opts != ["-L"]:
                     continue
                 icases.append((list(names), spec, opts))
+        # --subdir / --keep-as-dir on a tree in which one name is a string prefix of a sibling's name
+        E_ = treegen.E
+        subtree = [E_(b"bin", "dir", 0o755), E_(b"bin/sh", "file", content=b"sh"), E_(b"e", "file", content=b"e"), E_(b"etc", "dir", 0o755), E_(b"etc/x", "file", content=b"x"),
+                   E_(b"lib", "dir", 0o700), E_(b"lib/y", "slink", 0o777, target=b"../etc/x"), E_(b"lib64", "dir", 0o711), E_(b"lib64/z", "file", content=b"z" * 5000),
+                   E_(b"usr", "dir", 0o755), E_(b"usr/lib", "dir", 0o755), E_(b"usr/lib/a", "fifo", 0o600), E_(b"usr/lib64", "dir", 0o755), E_(b"usr/lib64/b", "file", content=b"b"),
+                   E_(b"usr/lib64/sub", "dir", 0o755), E_(b"usr/lib64/sub/c", "file", content=b"c"), E_(b"usr/libexec", "file", content=b"exec")]
+        for opts in (["-d", "lib64"], ["-k", "-d", "lib64"], ["-k", "-d", "usr/lib64"], ["-d", "usr/lib64"], ["-d", "usr/lib64", "-d", "etc"], ["-d", "lib", "-d", "lib64"],
+                     ["-k", "-d", "usr/lib64/sub"], ["-d", "usr/lib64/sub"], ["-k", "-d", "usr"], ["-d", "e" "tc", "-d", "bin", "-d", "usr/lib"]):
+            icases.append((["subdir-tree"], subtree, opts))
         n_img = 0
         for off in range(0, len(icases), chunk):
             if cr.expired():
